@@ -160,9 +160,13 @@ func (e extensionJSON) ToNode() (ast.Node, error) {
 	for k, v = range e {
 		_, _ = k, v
 	}
-	_, ok := extensions.ExtMap[types.Path(k)]
+	info, ok := extensions.ExtMap[types.Path(k)]
 	if !ok {
 		return ast.Node{}, fmt.Errorf("`%v` is not a known extension function or method", k)
+	}
+	if info.IsMethod && len(v) == 0 {
+		// the method receiver is the first argument
+		return ast.Node{}, fmt.Errorf("extension method `%v` is missing its receiver", k)
 	}
 	var argNodes []ast.Node
 	for _, n := range v {
